@@ -433,7 +433,26 @@ RUNNERS = dict(operator=run_operator, loss=run_loss, sysloss=run_sysloss)
 
 
 def run_case(rec):
-    return RUNNERS[rec["kind"]](rec)
+    """an exception that escapes a runner and was raised INSIDE jinns (typically by a constructor) is a datum: the record comes back
+    with `exc` set and the monitor names it (<Kind>Raised); an exception of the harness itself is a driver crash"""
+    import os
+    import traceback
+
+    try:
+        return RUNNERS[rec["kind"]](rec)
+    except Exception as ex:  # noqa
+        frames = traceback.extract_tb(ex.__traceback__)
+        inside = [f for f in frames if os.sep + "jinns" + os.sep in f.filename and "/verif/" not in f.filename]
+        if not inside or "/verif/" in frames[-1].filename:
+            raise
+        kind = {"gradbatch": "grad", "sysgradbatch": "grad"}.get(rec["kind"], rec["kind"])
+        out = {k: v for k, v in rec.items() if k != "masks"}
+        out.update(kind=kind, exc=f"{type(ex).__name__} at {os.path.basename(inside[-1].filename)}:{inside[-1].lineno}: {str(ex)[:160]}",
+                   src=rec.get("src", "tlc"))
+        if kind == "grad":
+            out.update(form="bool", mask=[], G=[], ref=[], obs=dict(total=dict(n=0, d=1, ok=True), terms=[], grad=[]))
+            return dict(_many=[out])
+        return out
 
 
 # ---------------------------------------------------------------------------------- C13: one-equation one-unknown system = plain loss
